@@ -46,6 +46,16 @@ type c03script struct {
 	warm string
 	// large: one of the blocks carries a value of 4..256 KiB
 	large bool
+	// methods: with compression on, the frame method the server uses for each item (a server may
+	// answer with any method, and with different ones within one connection)
+	methods []byte
+}
+
+func (s c03script) methodOf(i int) byte {
+	if s.comp.Method == 0 || i >= len(s.methods) {
+		return s.comp.Method
+	}
+	return s.methods[i]
 }
 
 var errSentinel = errors.New("callback sentinel failure")
@@ -134,6 +144,11 @@ func drawScript(rt *rapid.T) c03script {
 		s.items = append(s.items, Item{Kind: "exception", Exc: drawExceptionChain(rt, 5)})
 	} else {
 		s.items = append(s.items, Item{Kind: "eos"})
+	}
+	if s.comp.Method != 0 && rapid.Bool().Draw(rt, "mixed-frame-methods") {
+		for range s.items {
+			s.methods = append(s.methods, rapid.SampledFrom([]byte{s.comp.Method, ref.MethodNone, ref.MethodLZ4, ref.MethodZSTD}).Draw(rt, "frame-method"))
+		}
 	}
 	s.ctxDeadline = rapid.Bool().Draw(rt, "ctx-with-far-deadline")
 	s.warm = rapid.SampledFrom(warmKinds).Draw(rt, "earlier-exchange")
@@ -298,9 +313,9 @@ func runScriptOpts(rt *rapid.T, s c03script, segsFor func(i int, n int) []int, g
 		if i == 0 {
 			when = simnet.AfterQuery(1)
 		}
-		st := itemStep(it, when, s.comp.Method, nil)
+		st := itemStep(it, when, s.methodOf(i), nil)
 		if segsFor != nil {
-			b := it.Encode(N, map[bool]byte{true: s.comp.Method, false: 0}[s.comp.Method != 0 && (it.Kind == "data" || it.Kind == "totals")])
+			b := it.Encode(N, map[bool]byte{true: s.methodOf(i), false: 0}[s.comp.Method != 0 && (it.Kind == "data" || it.Kind == "totals")])
 			st.Segs = segsFor(i, len(b))
 		}
 		if gapAfter != nil { // also before the first packet of the response
